@@ -93,7 +93,7 @@ Qed.
 Lemma tcheck_ok cap o ts l ts' v : texec cap o ts -> tstep cap ts l = Some ts' -> tvis l = Some v -> tcheck v o = [].
 Proof.
   intros He Hs Hv. destruct (texec_sexec _ _ _ He) as [bo Hx].
-  destruct l as [x|c|c ok|c|c b]; cbn [tvis] in Hv.
+  destruct l as [x|c|c ok|c|c|c b]; cbn [tvis] in Hv.
   - destruct (svis x) as [w|] eqn:Ew; [|discriminate Hv]. injection Hv as <-.
     apply tstep_tx in Hs as (Hs & _). cbn [tcheck]. eapply vcheck_ok; eauto.
   - injection Hv as <-. cbn [tcheck tstep] in *. destruct (s_pc (sg (sw ts) c)) eqn:Ep; try discriminate Hs.
@@ -103,6 +103,7 @@ Proof.
   - injection Hv as <-. cbn [tcheck tstep] in *. destruct (get 0 c (t_hand ts)) eqn:Eh; try discriminate Hs.
     assert (Hi : In (VConnE c) (tproj o)) by (apply (stream_inv _ _ _ He c); right; lia).
     apply vmem_true in Hi. rewrite Hi. reflexivity.
+  - discriminate Hv.
   - injection Hv as <-. cbn [tstep] in Hs.
     destruct (negb (niling (sw ts)) && Bool.eqb b (is_open (c_reg (gc (base (sw ts)) c)))) eqn:Eg; [|discriminate Hs].
     apply andb_prop in Eg as [Hn Hb]. apply negb_true_iff in Hn. apply eqb_prop in Hb.
